@@ -52,12 +52,18 @@ def removeHopShift : Hops → Nat → Hops
   | [], _ => []
   | (f', c) :: t, f => if f' = f then t else (f', c) :: removeHopShift t f
 
-/-- hash-table FIB `RemoveNextHopEnc`: overwrite the first match with the last element, drop the
-    last element (`nextHops[i] = nextHops[len-1]; nextHops[:len-1]`) -/
-def removeHopSwap (h : Hops) (f : Nat) : Hops :=
-  match h.findIdx? (fun p => p.1 == f) with
-  | none => h
-  | some i => (h.set i (h.getLast?.getD (0, 0))).dropLast
+/-- hash-table FIB `RemoveNextHopEnc`: overwrite the first match with the last element and drop
+    the last element (`if len > 1 { nextHops[i] = nextHops[len-1] }; nextHops[:len-1]`): the
+    elements before the match stay, the match is replaced by the last element of the rest (if
+    there is a rest), the rest loses its last element. -/
+def removeHopSwap : Hops → Nat → Hops
+  | [], _ => []
+  | (f', c) :: t, f =>
+    if f' = f then
+      match t.getLast? with
+      | none => []
+      | some l => l :: t.dropLast
+    else (f', c) :: removeHopSwap t f
 
 def hasFace (h : Hops) (f : Nat) : Bool := h.any (fun p => p.1 == f)
 
@@ -116,7 +122,7 @@ def Tree.fill (t : Tree) (name : Name) : Tree :=
   ⟨t.nodes ++ (List.range' (d + 1) (name.length - d)).map fun k => (name.take k, TNode.blank)⟩
 
 def hasChild (nodes : List (Name × TNode)) (p : Name) : Bool :=
-  nodes.any fun q => q.1.length == p.length + 1 && q.1.take p.length == p
+  nodes.any fun q => q.1.length == p.length + 1 && decide (q.1.take p.length = p)
 
 /-- `pruneIfEmpty` (loop from the node at `name.take k` towards the root):
     `for cur := f; cur.parent != nil && no children && no nexthops && strategy == nil; cur = cur.parent`
@@ -247,6 +253,9 @@ def Hash.findStrategy (h : Hash) (name : Name) : Option Name :=
   | none => none
   | some k => scanStrat h.real name k
 
+/-- set membership in a `map[string]int` keyed by the name's bytes -/
+def nameIn (ns : List Name) (name : Name) : Bool := ns.any fun x => decide (x = name)
+
 def maxLen : List Name → Nat
   | [] => 0
   | n :: t => max n.length (maxLen t)
@@ -261,9 +270,20 @@ def Hash.insertEntry (h : Hash) (name : Name) : Hash :=
       | some md => max md name.length
       | none => name.length
     let ns := (afind h.vnames v).getD []
-    let ns := if ns.contains name then ns else ns ++ [name]
+    let ns := if nameIn ns name then ns else ns ++ [name]
     { h with real := real, virt := aset h.virt v md, vnames := aset h.vnames v ns }
   else { h with real := real }
+
+/-- step (1) of `pruneTables`: unrecord `name` from the set of the virtual name `v`, dropping the
+    set when it becomes empty -/
+def unrecord (vnames : List (Name × List Name)) (v name : Name) : List (Name × List Name) :=
+  match afind vnames v with
+  | some ns =>
+    if nameIn ns name then
+      let ns' := ns.filter (fun x => !(decide (x = name)))
+      if ns'.isEmpty then aerase vnames v else aset vnames v ns'
+    else vnames
+  | none => vnames
 
 /-- `pruneTables(entry)` for the entry stored under `name`: delete the real entry if it has no
     next hops and no strategy; then, for `len(name) >= m`, (1) if the virtual entry exists and
@@ -281,13 +301,7 @@ def Hash.prune (h : Hash) (name : Name) : Hash :=
         match afind h.virt v with
         | none => { h with real := real }
         | some md =>
-          let vn1 := match afind h.vnames v with
-            | some ns =>
-              if ns.contains name then
-                let ns' := ns.filter (fun x => !(decide (x = name)))
-                if ns'.isEmpty then aerase h.vnames v else aset h.vnames v ns'
-              else h.vnames
-            | none => h.vnames
+          let vn1 := unrecord h.vnames v name
           if name.length = md then
             match afind vn1 v with
             | none => { h with real := real, virt := aerase h.virt v, vnames := vn1 }
